@@ -31,7 +31,8 @@ MODEL_CLASSES = [
     ("IOut", r"\bIOut\b"), ("IDef", r"\bIDef\b"), ("ICall through a global", r"ICall \(CGlobal"), ("ICall of the function-valued argument", r"ICall CArg"),
     ("ICall passing a function value", r"%N \(Some \d+%N\)"), ("IFail", r"\bIFail\b"),
     ("SInput accepted", r"SInput \[[^\]]*\]*?.*? true "), ("SInput rejected at compile time", r"\] false "),
-    ("module unit that runs", r"mkMU true"), ("re-import of a loaded module (exports only)", r"mkMU false"),
+    ("module unit that runs", r"mkMU \d+%N false \[(?:Some|None)"), ("re-import of a loaded module (exports only)", r"mkMU \d+%N false \[\] \[\]"),
+    ("import that cannot be loaded", r"mkMU 0%N true"), ("call of a module's stateful function", r"IAdd \d+%N 1; IPrint"),
     ("SHost", r"\bSHost\b"), ("SHost with the wrong arity", r"SHost \d+%N 2%N"), ("SSet (host set_global)", r"\bSSet\b"),
     ("function without globals of its own (layout [])", r"mkF \[\] "), ("function of arity 2", r"\] 2%N \["),
     ("self-recursive function (frame limit)", r"mkF \[[^\]]*\] 1%N \[ICall \(CGlobal"),
